@@ -158,6 +158,11 @@ def codes_unique():
     return problems
 
 
+def sample_args(rng, kwargs):
+    """differential runs: codes drawn from the table"""
+    return {name: rng.choice(CODES) for name in kwargs}
+
+
 def shards(tier, seed):  # pylint: disable=unused-argument
     table = '%d members of TlsVersion in the current tree' % len(CODES)
     return [
